@@ -583,7 +583,9 @@ def to_coq(case, obs):
     step2 = "None"
     if case.get("schema2"):
         step2 = "(Some " + cpair(_inst_coq(intended(case["schema2"])), _obs_coq(obs["step2"])) + ")"
-    return (f"mkcase {_schema_coq(effective(case['schema']))} {_inst_coq(intended(case['schema']))} {cstr('.' + case['fmt'])} "
+    via = "RCtor" if case["via"] == "ctor" else "RCli"
+    api = "AParse" if case["api"] == "parse" else "AParser"
+    return (f"mkcase {_schema_coq(effective(case['schema']))} {_inst_coq(intended(case['schema']))} {cstr('.' + case['fmt'])} {via} {api} "
             f"{_obs_coq(obs)} {step2}")
 
 
